@@ -63,9 +63,9 @@ func plan(seed int64, tier string) []vrt.Case {
 	for sh := 0; sh < nShards; sh++ {
 		cs = append(cs, vrt.Case{ID: fmt.Sprintf("structured-%d", sh), Params: vrt.MustParams(params{Seed: seed, Kind: "structured", Shard: sh, Shards: nShards}), TimeoutS: 900})
 	}
-	stride, nrand := 7, 6000
+	stride, nrand := 2, 30000
 	if tier == "thorough" {
-		stride, nrand = 1, 120000
+		stride, nrand = 1, 300000
 	}
 	for b := 0; b < numBases; b++ {
 		for sh := 0; sh < 8; sh++ {
